@@ -104,8 +104,8 @@ def run(ctx):
                 configs.append((2, init, body, 3 if (init == "empty" and body == "fast") else 2))
                 configs.append((3, init, body, 2 if init == "empty" else 1))
             else:
-                configs.append((2, init, body, 2 if init != "complete" and body == "fast" else 1))
-        if not th:
+                configs.append((2, init, body, 2 if init == "empty" and body == "fast" else 1))
+        if not th and init == "empty":
             configs.append((3, init, "fast", 1))
     items = []
     det = []
